@@ -58,7 +58,13 @@ impl<T: RealNumber> LBFGS<T> {
             let i = (upper - 1).rem_euclid(self.m);
             let dxi = &state.dx_history[i];
             let dgi = &state.dg_history[i];
-            let scaling = dxi.dot(dgi) / dgi.abs().pow_mut(T::two()).sum();
+            let dg2 = dgi.abs().pow_mut(T::two()).sum();
+            // the pair of the last iteration is not stored when the gradient did not change (dg = 0)
+            let scaling = if dg2 > T::zero() {
+                dxi.dot(dgi) / dg2
+            } else {
+                T::one()
+            };
             state.s.copy_from(&state.twoloop_q.mul_scalar(scaling));
         } else {
             state.s.copy_from(&state.twoloop_q);
